@@ -20,6 +20,10 @@ def assign_configs(behaviours, prof, sd):
     blobs = prof.get("blobs", [None])
     for i, ops in enumerate(behaviours):
         j = i + sd
+        extra = {}
+        if ops and ops[0].get("op") == "_meta":
+            extra = {k: v for k, v in ops[0].items() if k != "op"}
+            ops = ops[1:]
         b = {"id": i, "ops": ops,
              "phys": (j % nphys) if nphys > 1 else prof.get("phys", 0),
              "key_alpha": kalphas[j % len(kalphas)],
@@ -29,6 +33,7 @@ def assign_configs(behaviours, prof, sd):
         # its own data block
         if any(op.get("split") == "all" for op in ops):
             b["block_size"] = 1
+        b.update(extra)
         out.append(b)
     return out
 
@@ -94,7 +99,7 @@ def _run(prop, tier, prof, replay_path, t0, sd, work):
         verify = None
     else:
         # 1. design level: the bounded model satisfies the invariants
-        verify = vlib.tlc_verify(prop, tp["verify"]["constants"], prof["invariants"], work,
+        verify = vlib.tlc_verify(prop, tp["verify"]["constants"], prof.get("invariants", []), work,
                                  workers=tp["verify"].get("workers", 8),
                                  timeout=tp["verify"].get("timeout", 900))
         log(f"[{prop}] model: {verify.get('distinct')} distinct states, "
@@ -113,6 +118,12 @@ def _run(prop, tier, prof, replay_path, t0, sd, work):
         # 2. generate behaviours
         driven = []
         for g in tp["gen"]:
+            if g["mode"] == "fifo":
+                import drive
+                ds = drive.fifo_behaviours(sd * 7919 + len(driven), g["count"], g.get("nkeys", prof["nkeys"]))
+                log(f"[{prop}] generated {len(ds)} behaviours (fifo) t={round(time.time()-t0)}s")
+                driven.extend(ds)
+                continue
             if g["mode"] == "drive":
                 import drive
                 ds = drive.behaviours(sd * 7919 + len(driven), g["count"], g.get("nkeys", prof["nkeys"]),
